@@ -139,6 +139,7 @@ type c11Op struct {
 	Real  bool     `json:"real,omitempty"`
 	Tk    string   `json:"tk,omitempty"`   // concurrent add ticket
 	Swap  bool     `json:"swap,omitempty"` // Report: the two votes in the other order
+	K     int64    `json:"k,omitempty"`    // UpdateBegin: stop before the k-th committed-marker write
 }
 
 type c11Run struct {
@@ -235,6 +236,147 @@ func (b *c11BlockStore) gate() {
 	<-g.release
 }
 
+// ---------------------------------------------------------------- evidence DB wrapper
+
+// c11EvDB wraps the evidence DB (it is the dbm.DB handed to NewPool, not a product hook).  When
+// armed it stops the registered goroutine -- the one running Pool.Update -- right before its
+// k-th write that carries a committed-marker key: a direct Set/SetSync of such a key or the
+// Write/WriteSync of a batch holding one.  The driver then runs calls of "other goroutines"
+// and releases the writer.
+type c11EvDB struct {
+	dbm.DB
+	mtx     sync.Mutex
+	gid     int64
+	k, n    int
+	reached chan struct{}
+	release chan struct{}
+}
+
+func c11IsMarker(key []byte) bool { return len(key) > 0 && key[0] == baseKeyCommitted }
+
+func (d *c11EvDB) arm(k int, reached, release chan struct{}) {
+	d.mtx.Lock()
+	d.gid, d.k, d.n, d.reached, d.release = -1, k, 0, reached, release
+	d.mtx.Unlock()
+}
+
+func (d *c11EvDB) setGid(g int64) {
+	d.mtx.Lock()
+	d.gid = g
+	d.mtx.Unlock()
+}
+
+func (d *c11EvDB) disarm() {
+	d.mtx.Lock()
+	d.release, d.reached = nil, nil
+	d.mtx.Unlock()
+}
+
+func (d *c11EvDB) markerWrite() {
+	d.mtx.Lock()
+	if d.release == nil || d.gid != c11Gid() {
+		d.mtx.Unlock()
+		return
+	}
+	d.n++
+	if d.n != d.k {
+		d.mtx.Unlock()
+		return
+	}
+	reached, release := d.reached, d.release
+	d.mtx.Unlock()
+	close(reached)
+	<-release
+}
+
+func (d *c11EvDB) Set(k, v []byte) error {
+	if c11IsMarker(k) {
+		d.markerWrite()
+	}
+	return d.DB.Set(k, v)
+}
+
+func (d *c11EvDB) SetSync(k, v []byte) error {
+	if c11IsMarker(k) {
+		d.markerWrite()
+	}
+	return d.DB.SetSync(k, v)
+}
+
+func (d *c11EvDB) NewBatch() dbm.Batch { return &c11Batch{Batch: d.DB.NewBatch(), d: d} }
+
+type c11Batch struct {
+	dbm.Batch
+	d      *c11EvDB
+	marker bool
+}
+
+func (b *c11Batch) Set(k, v []byte) error {
+	if c11IsMarker(k) {
+		b.marker = true
+	}
+	return b.Batch.Set(k, v)
+}
+
+func (b *c11Batch) Write() error {
+	if b.marker {
+		b.d.markerWrite()
+	}
+	return b.Batch.Write()
+}
+
+func (b *c11Batch) WriteSync() error {
+	if b.marker {
+		b.d.markerWrite()
+	}
+	return b.Batch.WriteSync()
+}
+
+// wait status of a goroutine as the runtime reports it ("running", "runnable",
+// "sync.Mutex.Lock", "chan receive", ...); "" when it is gone
+func c11GoStatus(gid int64) string {
+	buf := make([]byte, 1<<20)
+	n := runtime.Stack(buf, true)
+	tag := "goroutine " + strconv.FormatInt(gid, 10) + " ["
+	txt := string(buf[:n])
+	i := strings.Index(txt, tag)
+	if i < 0 {
+		return ""
+	}
+	rest := txt[i+len(tag):]
+	if j := strings.IndexAny(rest, ",]"); j >= 0 {
+		return rest[:j]
+	}
+	return ""
+}
+
+// c11Await waits until the call running in goroutine gid has COMPLETED or is BLOCKED on a
+// lock (which only the stopped committing goroutine can hold).  Which of the two happened
+// is the observation; no time-out decides it (the bound below only guards against a hang).
+func c11Await(gid int64, done chan error) (err error, completed bool) {
+	deadline := time.Now().Add(60 * time.Second)
+	for {
+		select {
+		case err = <-done:
+			return err, true
+		default:
+		}
+		st := c11GoStatus(gid)
+		if strings.HasPrefix(st, "sync.") || strings.HasPrefix(st, "semacquire") {
+			select {
+			case err = <-done:
+				return err, true
+			default:
+			}
+			return nil, false
+		}
+		if time.Now().After(deadline) {
+			panic("c11: call neither completed nor blocked on a lock (status " + st + ")")
+		}
+		time.Sleep(50 * time.Microsecond)
+	}
+}
+
 // ---------------------------------------------------------------- world
 
 type c11World struct {
@@ -248,7 +390,9 @@ type c11World struct {
 	bs      *c11BlockStore
 	sdb     dbm.DB
 	sstore  sm.Store
-	edb     dbm.DB
+	edb     *c11EvDB
+	upd     *c11Upd // an Update stopped before one of its committed-marker writes
+	mseq    int
 	pool    *Pool
 	items   map[string]types.Evidence
 	byBytes map[string]string // sha(evidence proto bytes) -> id
@@ -261,11 +405,19 @@ type c11World struct {
 	maxW    int64
 }
 
+type c11Upd struct {
+	to      int64
+	ids     []string
+	release chan struct{}
+	done    chan string
+}
+
 type c11Ticket struct {
-	id   string
-	h    int64
-	gate *c11Gate
-	done chan error
+	id    string
+	mutex bool // waiting for the pool's mutex (not parked at the harness's gate)
+	h     int64
+	gate  *c11Gate
+	done  chan error
 }
 
 func c11Hash(parts ...string) []byte {
@@ -499,7 +651,7 @@ func newC11World(t *testing.T, ctx *c11Ctx) *c11World {
 	w.saved = ctx.H0
 	w.startH = ctx.H0
 	w.bs.setTip(ctx.H0)
-	w.edb = dbm.NewMemDB()
+	w.edb = &c11EvDB{DB: dbm.NewMemDB()}
 	w.buildItems()
 	p, err := NewPool(w.edb, w.sstore, w.bs)
 	if err != nil {
@@ -900,6 +1052,15 @@ func (w *c11World) exec(out *c11Writer, run int, op c11Op) bool {
 
 func (w *c11World) exec2(out *c11Writer, run int, op c11Op) (bool, map[string]interface{}) {
 	ev := map[string]interface{}{"run": run}
+	// while an Update is stopped between two marker writes only calls of OTHER goroutines that
+	// the spec interleaves there are run; anything else lets the Update finish first
+	if w.upd != nil {
+		switch op.Op {
+		case "Add", "AddBegin", "Pending", "UpdateEnd":
+		default:
+			w.exec2(out, run, c11Op{Op: "UpdateEnd"})
+		}
+	}
 	switch op.Op {
 	case "Add":
 		it, ok := w.items[op.ID]
@@ -921,10 +1082,102 @@ func (w *c11World) exec2(out *c11Writer, run int, op c11Op) (bool, map[string]in
 			ev["ev"], ev["id"], ev["res"], ev["novals"] = "VerifyDV", op.ID, res, err != nil
 			break
 		}
+		if w.upd != nil {
+			// another goroutine's AddEvidence while the committing goroutine is stopped: it either
+			// completes or waits for the pool's mutex
+			done := make(chan error, 1)
+			gidc := make(chan int64, 1)
+			h := w.pool.State().LastBlockHeight
+			go func() {
+				gidc <- c11Gid()
+				var err error
+				if pk := c11Guard(func() { err = w.pool.AddEvidence(it) }); pk != "" {
+					err = c11Panic(pk)
+				}
+				done <- err
+			}()
+			err, completed := c11Await(<-gidc, done)
+			if !completed {
+				w.mseq++
+				tk := fmt.Sprintf("m%d", w.mseq)
+				w.tickets[tk] = &c11Ticket{id: op.ID, mutex: true, h: h, done: done}
+				ev["ev"], ev["id"], ev["tk"], ev["stage"], ev["how"] = "AddBegin", op.ID, tk, "parked", "mutex"
+				ev["res"], ev["why"], ev["detail"] = "ok", "none", ""
+				break
+			}
+			ev["ev"], ev["id"] = "Add", op.ID
+			c11OutcomeErr(ev, err)
+			break
+		}
 		var err error
 		pk := c11Guard(func() { err = w.pool.AddEvidence(it) })
 		ev["ev"], ev["id"] = "Add", op.ID
 		c11Outcome(ev, err, pk)
+	case "UpdateBegin":
+		l, ok := w.evs(op.IDs)
+		if !ok || len(l) == 0 || w.upd != nil {
+			return false, nil
+		}
+		to := w.pool.State().LastBlockHeight + 1
+		if to > int64(w.ctx.N) {
+			return false, nil
+		}
+		k := int(op.K)
+		if k < 1 {
+			k = 1
+		}
+		if w.bs.Height() < to {
+			w.bs.setTip(to)
+		}
+		u := &c11Upd{to: to, ids: op.IDs, release: make(chan struct{}), done: make(chan string, 1)}
+		reached := make(chan struct{})
+		w.edb.arm(k, reached, u.release)
+		st := w.stateAt(to)
+		go func() {
+			w.edb.setGid(c11Gid())
+			pk := c11Guard(func() { w.pool.Update(st, l) })
+			w.edb.disarm()
+			u.done <- pk
+		}()
+		stage := "paused"
+		select {
+		case <-reached:
+			w.upd = u
+			c11Outcome(ev, nil, "")
+		case pk := <-u.done:
+			// fewer than k marker writes: the Update ran to its end
+			stage = "finished"
+			c11Outcome(ev, nil, pk)
+			if pk == "" {
+				w.saveStates(to)
+			}
+		}
+		ev["ev"], ev["to"], ev["ids"], ev["k"], ev["stage"] = "UpdateBegin", to, op.IDs, k, stage
+		ev["A"], ev["D"] = w.ctx.paramsAt(to).A, w.ctx.paramsAt(to).D
+	case "UpdateEnd":
+		u := w.upd
+		if u == nil {
+			return false, nil
+		}
+		close(u.release)
+		pk := <-u.done
+		w.upd = nil
+		// the calls that waited for the mutex go on now; their effects commute with the rest of
+		// the Update, the state is observed when all of them have returned
+		late := []map[string]interface{}{}
+		for _, tk := range c11TicketNamesOf(w, true) {
+			t := w.tickets[tk]
+			l := map[string]interface{}{"tk": tk, "id": t.id}
+			c11OutcomeErr(l, <-t.done)
+			delete(l, "detail")
+			late = append(late, l)
+			delete(w.tickets, tk)
+		}
+		c11Outcome(ev, nil, pk)
+		if pk == "" {
+			w.saveStates(u.to)
+		}
+		ev["ev"], ev["to"], ev["ids"], ev["late"] = "UpdateEnd", u.to, u.ids, late
 	case "Check":
 		l, ok := w.evs(op.IDs)
 		if !ok || len(l) == 0 {
@@ -971,12 +1224,7 @@ func (w *c11World) exec2(out *c11Writer, run int, op c11Op) (bool, map[string]in
 		c11Outcome(ev, nil, pk)
 		// a node whose Update panicked never reaches the state save
 		if !op.Crash && pk == "" {
-			for s := w.saved + 1; s <= to; s++ {
-				if err := w.sstore.Save(w.stateAt(s)); err != nil {
-					w.t.Fatal(err)
-				}
-			}
-			w.saved = to
+			w.saveStates(to)
 		}
 		ids := op.IDs
 		if ids == nil {
@@ -1048,13 +1296,13 @@ func (w *c11World) exec2(out *c11Writer, run int, op c11Op) (bool, map[string]in
 			stage = "returned"
 			c11OutcomeErr(ev, err)
 		}
-		ev["ev"], ev["id"], ev["tk"], ev["stage"] = "AddBegin", op.ID, op.Tk, stage
+		ev["ev"], ev["id"], ev["tk"], ev["stage"], ev["how"] = "AddBegin", op.ID, op.Tk, stage, "gate"
 		if stage == "parked" {
 			ev["res"], ev["why"], ev["detail"] = "ok", "none", ""
 		}
 	case "AddEnd":
 		tk := w.tickets[op.Tk]
-		if tk == nil {
+		if tk == nil || tk.mutex {
 			return false, nil
 		}
 		close(tk.gate.release)
@@ -1068,6 +1316,30 @@ func (w *c11World) exec2(out *c11Writer, run int, op c11Op) (bool, map[string]in
 	ev["post"] = w.project()
 	out.emit(ev)
 	return true, ev
+}
+
+func (w *c11World) saveStates(to int64) {
+	for s := w.saved + 1; s <= to; s++ {
+		if err := w.sstore.Save(w.stateAt(s)); err != nil {
+			w.t.Fatal(err)
+		}
+	}
+	if to > w.saved {
+		w.saved = to
+	}
+}
+
+// names of the in-flight AddEvidence calls, sorted: those waiting for the pool's mutex or
+// those parked at the harness's gate
+func c11TicketNamesOf(w *c11World, mutex bool) []string {
+	names := []string{}
+	for n, t := range w.tickets {
+		if t.mutex == mutex {
+			names = append(names, n)
+		}
+	}
+	sort.Strings(names)
+	return names
 }
 
 func c11Res(err error) string {
@@ -1117,13 +1389,11 @@ func c11Outcome(ev map[string]interface{}, err error, panicked string) {
 }
 
 func (w *c11World) finish(out *c11Writer, run int) {
-	// never leave a parked goroutine behind
-	tks := make([]string, 0, len(w.tickets))
-	for tk := range w.tickets {
-		tks = append(tks, tk)
+	// never leave a stopped Update or a parked goroutine behind
+	if w.upd != nil {
+		w.exec(out, run, c11Op{Op: "UpdateEnd"})
 	}
-	sort.Strings(tks)
-	for _, tk := range tks {
+	for _, tk := range c11TicketNamesOf(w, false) {
 		w.exec(out, run, c11Op{Op: "AddEnd", Tk: tk})
 	}
 }
